@@ -145,6 +145,8 @@ def gen_worker(d: D, prof: dict, depth: int, n_hint: int) -> dict:
         ws["on_cancel"] = "cleanup"
     if d.p(prof["p_callfault"]) and n_hint > 0:
         ws["callfault"] = sorted({d.i(0, max(0, n_hint - 1)) for _ in range(d.i(1, 2))})
+    elif d.p(prof.get("p_bad_return", 0.0)) and n_hint > 0 and prof.get("_kind_hint") in ("apply", "start"):
+        ws["bad_return_at"] = d.i(0, n_hint - 1)
     ws["fname"] = d.pick(prof["fnames"])
     if "ends" in ws or "callfault" in ws:
         ws["fault_kind"] = d.i(0, 4)
@@ -186,7 +188,7 @@ def gen_spawn(d: D, prof: dict, depth: int, op: Optional[dict] = None) -> dict:
             op["as_list"] = True
         elif depth == 0 and d.p(prof["p_embedded"] * 0.5) and op["n"]:
             op["pull_ops"] = {str(d.i(0, op["n"] - 1)): gen_op(d, prof, d.pick(["cancel_group", "cancel", "spawn", "gate", "flush"]), depth + 1)}
-    op["worker"] = gen_worker(d, prof, depth, n_hint)
+    op["worker"] = gen_worker(d, dict(prof, _kind_hint=kind), depth, n_hint)
     e = gen_cb(d, prof, depth)
     c = gen_cb(d, prof, depth)
     if e is not None:
